@@ -590,7 +590,9 @@ func (f *kindFlow) edge(from *ssa.BasicBlock, succ int, s *kindState) (*kindStat
 				if (x.Op == token.EQL) != onTrue {
 					return s, false
 				}
+				return s, true
 			}
+			// compared with some other type: "not that type" alone decides nothing yet (the conversion question follows)
 			return s, true
 		}
 		// container.Type().Elem() == interfaceType: in the wrapped world the elements of every container are interface slots
@@ -626,6 +628,16 @@ func (f *kindFlow) edge(from *ssa.BasicBlock, succ int, s *kindState) (*kindStat
 		case "IsNil":
 			if f.wrapOf(x.Call.Args[0], s, 0) == wYes && onTrue {
 				return s, false // a wrapped value is a non-nil interface
+			}
+		}
+		// v.Type().ConvertibleTo(t) / AssignableTo(t) answered "no" for a wrapped v: the wrapper's answer
+		if x.Call.IsInvoke() && (x.Call.Method.Name() == "ConvertibleTo" || x.Call.Method.Name() == "AssignableTo") && !onTrue {
+			if tc, ok := x.Call.Value.(*ssa.Call); ok && reflectMethod(tc) == "Type" {
+				if v := tc.Call.Args[0]; f.wrapOf(v, s, 0) == wYes {
+					if _, has := s.decided[v]; !has {
+						s.decided[v] = "Type()." + x.Call.Method.Name() + "(wanted type) is false"
+					}
+				}
 			}
 		}
 		// boolean helpers deciding on a wrapped argument (isIntKind(v), isNum(v) …): the helper's own summary reports the discrimination
